@@ -122,7 +122,11 @@ class CoupledClimateNetwork(InteractingNetworks, ClimateNetwork):
                                     directed=directed,
                                     node_weight_type=node_weight_type,
                                     silence_level=silence_level)
-            InteractingNetworks.__init__(self, self.adjacency)
+            #  (keep direction, geographical node weights and verbosity)
+            InteractingNetworks.__init__(self, self.adjacency,
+                                         directed=self.directed,
+                                         node_weights=self.node_weights,
+                                         silence_level=self.silence_level)
         else:
             print("The two observables (layers) have to have the same number "
                   "of temporal sampling points!")
